@@ -89,6 +89,8 @@ let dispatch (fn : string) : jv -> jv = match fn with
   | "gss_unframe" -> gss_unframe_j
   | "krb5_token" -> krb5_token_j
   | "krb5_untoken" -> krb5_untoken_j
+  | "verify_apreq_bytes" -> verify_apreq_bytes_j
+  | "apreq_decode" -> apreq_decode_j
   | "pac_process" -> pac_process_j
   | "pac_unmarshal" -> pac_unmarshal_j
   | "sig_unmarshal" -> sig_unmarshal_j
